@@ -116,6 +116,42 @@ mod verif_queuing {
         std::mem::forget(w);
     }
 
+    // ---- rely/guarantee on the worker counters (hook H3/H4): other producers / the worker update the same
+    // counters concurrently; every update must be ONE atomic read-modify-write
+    use crate::verif_shim::atomic::interfered::INTERFERE;
+
+    //@H name=c15_submit_concurrent props=C15,C20 bound="queue occupancy 0..=1, unbounded" fn=Worker::submit,WorkerStats::incr_submitted :: under ARBITRARY concurrent additions by other producers to the same counter, an accepted emit still adds exactly one to submitted and nothing the others added is lost
+    #[kani::proof]
+    #[kani::unwind(5)]
+    fn c15_submit_concurrent() {
+        let w = recording_worker(None);
+        let (s, _d) = any_counters(&w);
+        INTERFERE.store(true, Ordering::SeqCst);
+        let r = w.submit(String::from("3"));
+        INTERFERE.store(false, Ordering::SeqCst);
+        assert!(r.is_ok(), "accepted");
+        let o = w.stats.submitted.ghost_others();
+        assert!(w.stats.submitted() == s.wrapping_add(o).wrapping_add(1), "[C15] submitted is exact under concurrent producers: this emit and every concurrent one are all counted (one atomic read-modify-write per accepted emit)");
+        kani::cover!(o != 0, "interference happened");
+        std::mem::forget(r); std::mem::forget(w);
+    }
+
+    //@H name=c15_drained_concurrent props=C11,C15,C20 bound="1 queued metric" fn=Worker::run,WorkerStats::incr_drained,incr_panic :: under ARBITRARY concurrent additions (a replacement worker after a panic, other readers), handing over one metric adds exactly one to drained; a sentinel drop adds exactly one to panics
+    #[kani::proof]
+    #[kani::unwind(5)]
+    fn c15_drained_concurrent() {
+        let w = recording_worker(None);
+        prefill(&w, 1);
+        let (_s, d) = any_counters(&w);
+        INTERFERE.store(true, Ordering::SeqCst);
+        w.run();
+        INTERFERE.store(false, Ordering::SeqCst);
+        let o = w.stats.drained.ghost_others();
+        assert!(DELIVERED.load(Ordering::SeqCst) == 1 && w.stats.drained() == d.wrapping_add(o).wrapping_add(1), "[C15] drained is exact under concurrent updates of the same counter");
+        kani::cover!(o != 0, "interference happened");
+        std::mem::forget(w);
+    }
+
     //@H name=c10_get_channels props=C10,C20 fn=Worker::get_channels :: a configured capacity creates a bounded queue of exactly that capacity, none creates an unbounded queue
     #[kani::proof]
     #[kani::unwind(5)]
